@@ -108,7 +108,7 @@ def h(cfg):
         items = []
         for i in range(P.n):
             if P.leaf[i] and not related(P, u, i):
-                t1, t2 = V.t[i], sch2.schedule[i + 1]
+                t1, t2 = V.t[i], sch2.schedule[i]
                 items.append((And(t1.start == t2.start, t1.end == t2.end),
                               'C08 dates changed when an unrelated task was removed (balancing off)', None))
         check_all(items)
